@@ -388,7 +388,8 @@ def run(c):
         m = rng.choice([0.0, 10 ** rng.uniform(-12, 0) * pr[6]])
         if kind == "ell":
             a = 10 ** rng.uniform(-4, 4)
-            e = rng.choice([0.0, rng.uniform(0, 0.99), 10 ** rng.uniform(-12, -5), 1 - 10 ** rng.uniform(-6, -1), rng.uniform(0, 0.5)])
+            e = rng.choice([0.0, rng.uniform(0, 0.99), 10 ** rng.uniform(-12, -5), 1 - 10 ** rng.uniform(-6, -1), rng.uniform(0, 0.5),
+                            10 ** rng.uniform(-9.5, -8.05)])
             f = rand_angle()
         else:
             a = -10 ** rng.uniform(-4, 4)
@@ -536,6 +537,27 @@ def run(c):
                 fail("orbit-theta", "theta != Omega +- (omega + f)", dict(rep, theta=o.theta))
             if o.e > 1e-6 and o.M == o.M and angdiff(o.l, o.Omega + sgn * (o.omega + o.M)) > atol:
                 fail("orbit-l", "l != Omega +- (omega + M)", dict(rep, l=o.l, M=o.M))
+        # near-circular branch (e <= 1e-8): l = theta -+ 2 e sin f, with e sin f = vr h / mu and theta from atan2
+        if 1e-10 <= o.e <= 1e-8 and o.l == o.l:
+            vr_ = (rel[0] * rel[3] + rel[1] * rel[4] + rel[2] * rel[5]) / rs
+            esinf = vr_ * oh / mu
+            hx_, hy_, hz_ = rel[1] * rel[5] - rel[2] * rel[4], rel[2] * rel[3] - rel[0] * rel[5], rel[0] * rel[4] - rel[1] * rel[3]
+            if math.hypot(hx_, hy_) > 1e-6 * oh:
+                Om_ = math.atan2(hx_, -hy_)
+                # argument of latitude u: position in the node frame
+                cu = (rel[0] * math.cos(Om_) + rel[1] * math.sin(Om_)) / rs
+                su = rel[2] / (rs * math.sin(oinc)) if abs(math.sin(oinc)) > 1e-3 else None
+                th_ = (Om_ + sgn * math.atan2(su, cu)) if su is not None else None
+            else:
+                th_ = math.atan2(rel[1], rel[0])
+            if th_ is not None and abs(o.inc - PI / 2) > 1e-3:
+                # acos2-based angles of the implementation lose accuracy near 0 and pi: only compare when theta is well conditioned
+                well_th = abs(math.sin(o.theta)) > 0.05 and abs(math.sin(o.Omega)) > 0.05 and abs(math.sin(math.remainder(o.theta - o.Omega, 2 * PI))) > 0.05
+                lw = th_ - sgn * 2 * esinf
+                if well_th and angdiff(o.l, lw) > 2e-10:
+                    fail("orbit-l-circular", "near-circular orbit (e<=1e-8): reported l is not theta -+ 2 e sin f", dict(rep, l=o.l, want=math.remainder(lw, 2 * PI) % (2 * PI), e=o.e))
+                if well_th:
+                    track("l_circular", angdiff(o.l, lw))
         # M vs f (Kepler's equation through the oracle's half-angle form)
         if o.M == o.M and o.e > 1e-6:
             if not hyp:
@@ -738,6 +760,49 @@ def run(c):
                 fail(F19, "a = 0 (or P = 0) is accepted and gives a particle with NaN/inf velocity", dict(kwargs=kw))
             else:
                 fail(F20, "Pal elements of an unbound orbit (h^2+k^2 >= 1, or a < 0) are accepted and give a NaN particle", dict(kwargs=kw))
+    # documented rejections, asserted on the real code independently of the model
+    for i in range(140):
+        sim = rebound.Simulation()
+        sim.add(m=1.0)
+        k = i % 7
+        e_h = rng.uniform(1.05, 5)
+        kw = [dict(a=rng.uniform(0.5, 2), e=1.0),
+              dict(a=rng.uniform(0.5, 2), e=-10 ** rng.uniform(-8, 0)),
+              dict(a=rng.uniform(0.5, 2), e=e_h),
+              dict(a=-rng.uniform(0.5, 2), e=rng.uniform(0, 0.99)),
+              dict(a=-rng.uniform(0.5, 2), e=e_h, f=math.acos(-1 / e_h) * rng.uniform(1.001, 1.9) * rng.choice([1, -1])),
+              dict(a=rng.uniform(0.5, 2), e=rng.uniform(0, 0.9), primary=P(m=rng.choice([0.0, 1e-310, -1.0]))),
+              dict(a=rng.uniform(0.5, 2), ix=rng.uniform(1.5, 3), iy=rng.uniform(1.5, 3))][k]
+        if rng.chance(0.5) and k != 4:
+            kw[rng.choice(["f", "M", "theta", "l"])] = rng.uniform(0.1, 6) if k != 6 else 0.3
+            if k == 6:
+                kw = dict((a_, b_) for a_, b_ in kw.items() if a_ in ("a", "ix", "iy", "l"))
+        ninv += 1
+        kind = ["e==1", "e<0", "e>1,a>0", "e<1,a<0", "f-beyond-asymptote", "massless-primary", "ix2+iy2>4"][k]
+        for front in ("python", "c"):
+            sim2 = rebound.Simulation()
+            sim2.add(m=1.0)
+            rejected = False
+            if front == "python":
+                try:
+                    sim2.add(**kw)
+                except ValueError:
+                    rejected = True
+            else:
+                names = list(kw)
+                args = [kw[n] if n == "primary" else D(kw[n]) for n in names]
+                clib.reb_simulation_add_fmt(ctypes.byref(sim2), " ".join(names).encode(), *args)
+                try:
+                    sim2.process_messages()
+                except RuntimeError:
+                    rejected = True
+                rejected = rejected and sim2.N == 1
+            c.count(("must-reject", kind, front, rejected))
+            if not rejected:
+                pp_ = sim2.particles[1] if sim2.N > 1 else None
+                fail("invalid-accepted:%s:%s" % (kind, front), "%s front end accepts invalid elements (%s) instead of raising the documented error" % (front, kind),
+                     dict(kwargs=dict((a_, (b_ if not isinstance(b_, P) else "Particle(m=%r)" % b_.m)) for a_, b_ in kw.items()),
+                          particle=[pp_.x, pp_.y, pp_.z, pp_.vx, pp_.vy, pp_.vz] if pp_ is not None else None))
     c.cov["invalid_value_inputs"] = ninv
 
     # ---------------------------------------------------------------- run the model
@@ -780,13 +845,15 @@ def run(c):
                         sv = max([abs(v) for v in ev[3:6] if math.isfinite(v)] + [1e-300])
                         scales = [sp] * 3 + [sv] * 3 + [abs(ev[6]) or 1.0]
                     else:
-                        scales = [max(abs(a), abs(b), 1e-300) if kind != "op" else max(abs(a), abs(b), 1.0) for a, b in zip(gv, ev)]
+                        scales = [max(abs(a), abs(b), 1e-300) if kind in ("fmod", "kpal") else max(abs(a), abs(b), 1.0) for a, b in zip(gv, ev)]
                     # harmless re-association must not fire, a wrong sign / constant / branch must
                     tol = 1e-12 if kind in ("fmod", "mod2pi", "fo", "e2f") else 1e-9
                     for a, b, ta, tb, sc in zip(gv, ev, gt, e, scales):
                         if ta == tb:
                             continue
                         if a != a or b != b or not abs(a - b) <= tol * sc:
+                            if kind in ("m2e", "m2f", "e2f", "mod2pi") and a == a and b == b and abs(abs(a - b) - 2 * PI) <= tol * 8:
+                                continue       # same angle, other end of [0, 2pi)
                             bad = True
                 except Exception:
                     bad = True
@@ -961,6 +1028,8 @@ def front_ends(c, rebound, clib, P, rng, add, fail, c_err_by_msg, thorough, trac
             return ("ok", [p.x, p.y, p.z, p.vx, p.vy, p.vz, p.m, p.r, p.hash.value])
         except ValueError as e:
             return ("E%d" % py_code(str(e)), str(e))
+        except Exception as e:      # anything else is a crash of the constructor, not a verdict
+            return ("EX:" + type(e).__name__, str(e))
 
     pending = []   # (pres, vals, c_out, py_out, index of 'v' line, index of 'fmt' line or None)
 
@@ -1011,7 +1080,10 @@ def front_ends(c, rebound, clib, P, rng, add, fail, c_err_by_msg, thorough, trac
                     stats["max_PT_rel_diff"] = max(stats["max_PT_rel_diff"], rel)
                 # P -> a and T -> M are computed with pow() in Python and cbrt()/sqrt() in C: 4 ulp on a or M
                 e_ = v.get("e", 0.0)
-                amp = max(1.0, abs(v.get("T", 0.0)) + 10.0) * (1.0 / abs(1 - e_) ** 2 if e_ != 1 else 1.0)
+                # an ulp on n (pow vs sqrt/cbrt) is multiplied by |M| = n |t - T|, then by df/dM
+                n_up = (2 * PI / v["P"]) if pres["P"] else math.sqrt(sim.G * 4.0 / abs(v.get("a", 1.0)) ** 3)
+                Mmag = n_up * abs(sim.t - v["T"]) if pres["T"] else 0.0
+                amp = max(1.0, Mmag) * (1.0 / abs(1 - e_) ** 2 if e_ != 1 else 1.0)
                 if conv and rel <= 4 * 2.3e-16 * 8 * amp:
                     stats["particles_PT_within_tol"] += 1
                 else:
@@ -1130,6 +1202,37 @@ def roundtrips(c, rebound, clib, P, rng, fail, track, thorough, check_reader, ra
         p = sim.particles[1]
         pv = [p.x, p.y, p.z, p.vx, p.vy, p.vz, p.m]
         c.count(("roundtrip",) + key + (inc in (0.0, PI, PI / 2), e == 0.0))
+        # the same elements through the C front end
+        nmean_ = math.sqrt(mu / abs(a) ** 3)
+        simc = rebound.Simulation()
+        simc.G, simc.t = sim.G, sim.t
+        simc.add(m=sim.particles[0].m)
+        names = list(kw)
+        clib.reb_simulation_add_fmt(ctypes.byref(simc), ",".join(names).encode(), *[D(kw[n_]) for n_ in names])
+        cerr = None
+        try:
+            simc.process_messages()
+        except RuntimeError as ex:
+            cerr = str(ex)
+        if cerr is not None or simc.N != 2:
+            fail("front-ends-verdict-valid-elements", "reb_simulation_add_fmt rejects valid elements that sim.add accepts: %s" % cerr, rep)
+        else:
+            q = simc.particles[1]
+            qv = [q.x, q.y, q.z, q.vx, q.vy, q.vz, q.m]
+            if [d2h(x) for x in qv] != [d2h(x) for x in pv]:
+                sp = max(abs(x) for x in pv[:3]) or 1.0
+                sv = max(abs(x) for x in pv[3:6]) or 1.0
+                both_nan = all((a_ != a_) == (b_ != b_) for a_, b_ in zip(pv, qv))
+                relc = max([abs(x - y) / sp for x, y in zip(pv[:3], qv[:3]) if x == x and y == y] +
+                           [abs(x - y) / sv for x, y in zip(pv[3:6], qv[3:6]) if x == x and y == y] + [0.0])
+                conv = ("P" in kw) or ("T" in kw)
+                # an ulp on n (pow vs sqrt/cbrt) is multiplied by |M| = n |t - T|, then by df/dM
+                Mmag = nmean_ * abs(sim.t - kw["T"]) if "T" in kw else 0.0
+                amp = max(1.0, Mmag) * (1.0 / abs(1 - e) ** 2)
+                track("front_ends_PT_rel", relc / amp)
+                if not (both_nan and conv and relc <= 4 * 2.3e-16 * 8 * amp):
+                    fail("front-ends-particle-valid-elements" + ("-PT" if conv else ""), "C and Python front ends build different particles from the same valid elements",
+                         dict(rep, c=qv, python=pv, rel=relc))
         if not all(math.isfinite(v) for v in pv):
             pro_ = math.cos(inc) > 0
             om__ = kw.get("omega", ((kw["pomega"] - Om) if pro_ else (Om - kw["pomega"])) if peri == "pomega" else 0.0)
